@@ -63,17 +63,33 @@ RULE = ("cases = (rule set, term): rule sets of 1-5 rules (12 hand-written + see
         "symbol changed) of a rule's lhs; non-trivial = some rule matches or is yielded; distinct = distinct (rule set, term)")
 ASSUMPTIONS = ["the brute-force matcher and substitution of the harness (structural equality of tuples, identity of the "
                "function objects) define 'matches' and 'instance'; terms are ground (never contain the variable names)"]
-BUDGET = {"quick": 30, "thorough": 480}
+BUDGET = {"quick": 40, "thorough": 540}
 FLOORS = {
-    "quick": {"evaluations": 1, "distinct_nontrivial": 1},
-    "thorough": {"evaluations": 1, "distinct_nontrivial": 1},
+    # measured on the unchanged tree (quick, seed 0): 380 980 cases, 57 711 distinct non-trivial, matches_expected 78 504,
+    # sound_yields 77 878, repeated_variable_matches 7 721, several-matching 9 056, fixed-arity matching terms 32 024
+    "quick": {"evaluations": 170000, "distinct_nontrivial": 25000,
+              "counters": {"iter_matches_calls": 170000, "rewrite_calls": 170000, "matches_expected": 35000,
+                           "sound_yields": 35000, "repeated_variable_matches": 3300,
+                           "terms_with_several_matching_rules": 4000, "fixed_arity_matching_terms": 14000,
+                           "nonmatching_terms": 140000, "rewrite_applied_matching_rule": 30000,
+                           "rewrite_left_unchanged": 135000},
+              "sets": {"matching_rule_sets": 12000}},
+    # measured (thorough, seed 0): 4 618 072 cases, 1 011 732 distinct non-trivial, matches_expected 1 466 344,
+    # sound_yields 1 459 051, repeated_variable_matches 92 401, several-matching 283 001, fixed-arity matching 304 966
+    "thorough": {"evaluations": 2000000, "distinct_nontrivial": 450000,
+                 "counters": {"iter_matches_calls": 2000000, "rewrite_calls": 2000000, "matches_expected": 650000,
+                              "sound_yields": 650000, "repeated_variable_matches": 40000,
+                              "terms_with_several_matching_rules": 125000, "fixed_arity_matching_terms": 135000,
+                              "nonmatching_terms": 1500000, "rewrite_applied_matching_rule": 500000,
+                              "rewrite_left_unchanged": 1450000},
+                 "sets": {"matching_rule_sets": 120000}},
 }
 EXHAUSTIVE_SPACE = {
     "quick": "all 4683 terms of depth <= 2 over {f,g,h} x {1,2,'c'} with arity 1-2, each against every rule set of the fixed "
              "list (12 hand-written + 48 seeded)",
-    "thorough": "all 4683 terms of depth <= 2 over {f,g,h} x {1,2,'c'} (arity 1-2) against 12 hand-written + 148 seeded rule "
-                "sets; all 357 294 terms of depth <= 3 over {f,g} x {1,2} (arity 1-2) against 10 rule sets over that alphabet "
-                "(4 hand-written + 6 seeded)",
+    "thorough": "all 4683 terms of depth <= 2 over {f,g,h} x {1,2,'c'} (arity 1-2) against 12 hand-written + 108 seeded rule "
+                "sets; all 357 294 terms of depth <= 3 over {f,g} x {1,2} (arity 1-2) against 8 rule sets over that alphabet "
+                "(4 hand-written + 4 seeded)",
 }
 LEVEL_NOTE = "trusts the 25-line matcher/substitution of the harness and Python tuple equality; the discrimination net is observed"
 CLAIM = ("Every iter_matches / top-level rewrite call observed (all terms to depth 2 -- depth 3 on a reduced alphabet in the "
@@ -328,7 +344,7 @@ def _terms(reduced):
     return _TERMS[reduced]
 
 
-NSEEDED_Q, NSEEDED_T, NRED_T = 48, 148, 10
+NSEEDED_Q, NSEEDED_T, NRED_T = 48, 108, 8
 N2 = 3 + 3 * (39 + 39 * 39)          # 4683
 N2R = 2 + 2 * (14 + 14 * 14)         # 422
 N3R = 2 + 2 * (N2R + N2R * N2R)      # 357 294
@@ -408,7 +424,7 @@ def cases(tier, seed):
         for rs in range(NRED_T):
             for t in range(N3R):
                 yield {"space": "exhaustive", "rs": rs, "t3": t}
-    k = 100000 if not thorough else 2000000
+    k = 100000 if not thorough else 1200000
     for _ in range(k):
         # seeded rule sets beyond the fixed list as well
         rs = rng.randrange(nfixed) if rng.random() < 0.4 else rng.randrange(nfixed, 10 ** 6)
